@@ -112,5 +112,8 @@ def run(ctx: core.Ctx) -> int:
                      ("TRUST-SIG", "trusted sympy call signatures")):
         ctx.rule(_rid, _t)
     _tmp.check_python_block(ctx, it.p.modules["python"])
+    # what is compiled is the user's expression / its exact derivative: no sympy rewriting outside the CSE gate (shared with C01)
+    from . import c01 as _c01nr
+    _c01nr.py_no_rewrite(ctx, it.p.modules["python"], "py/formak/python.py")
     return core.finish(ctx, explanation="layout abstract interpretation (E2) of python.ExtendedKalmanFilter: Jacobian blocks, "
                                         "their execute() sites and the three un-flatten nests, for every model at once", **META)
